@@ -13,7 +13,11 @@
         transaction whose record could not be read): the block was accepted with a spend missed;
      3. ntfnshandler.go asyncRemove, last round: DeleteKeystore drops the keystore from the
         in-memory table inside the closure; when the commit AND the repairing reload fail, the
-        next attempt finds no keystore and reports the removal finished. *)
+        next attempt finds no keystore and reports the removal finished.
+   Since 96d76da the repairs of 1 and 3 no longer read the store (ForgetAddresses, RestoreCachedKeystore:
+   in-memory, cannot fail): for 3 see [remove_attempt_undo] below, for 1 Ledger/FaultReload.v
+   (mem_undo = true) and Ledger/FaultOps.v (f_keystore_undo); [new_address true] and
+   [remove_attempt true] are the code between those repairs and 96d76da. *)
 From Coq Require Import List ZArith NArith Bool.
 Import ListNotations.
 Open Scope Z_scope.
@@ -125,4 +129,24 @@ Fixpoint remove_attempts (repaired : bool) (fs : list (bool * bool)) (r : rstate
   | (c, l) :: rest =>
       let '(r1, fin) := remove_attempt repaired c l r in
       if fin then (r1, true) else remove_attempts repaired rest r1
+  end.
+
+(* the code as it stands (96d76da): when the Commit of the last round fails, RestoreCachedKeystore puts the
+   AddrManager the worker holds back into the table — no storage access, so the keystore is cached again
+   whatever the storage does (the reload flag only matters for the attempt that starts without a cached
+   keystore: 33294fa's reload at the top of asyncRemove is still there, and never needed) *)
+Definition remove_attempt_undo (commit_fails reload_fails : bool) (r : rstate) : rstate * bool :=
+  let r0 :=
+    if negb (r_cache r) && r_store r && negb reload_fails
+    then {| r_store := r_store r; r_cache := true |} else r in
+  if negb (r_cache r0) then (r0, true)
+  else if negb commit_fails then ({| r_store := false; r_cache := false |}, true)
+  else (r0, false).
+
+Fixpoint remove_attempts_undo (fs : list (bool * bool)) (r : rstate) : rstate * bool :=
+  match fs with
+  | [] => (r, false)
+  | (c, l) :: rest =>
+      let '(r1, fin) := remove_attempt_undo c l r in
+      if fin then (r1, true) else remove_attempts_undo rest r1
   end.
